@@ -72,6 +72,8 @@ SV_NOTE = "handlers modelled as write plans (Model/Server.lean): every durable w
 PROPS["C01"] = {
     "lean_module": "RaftVerif.Props.C01",
     "theorems": [
+        T("SV.election_safety_sv", "a cluster of stepped servers, each an arbitrary run (any start image, any messages / snapshots / restarts, any write failure or crash ordinal): two candidates holding granted answers of one term from quorums of one voter configuration, or of two configurations one voter apart, are the same candidate"),
+        T("SV.run_one_vote_per_term", "per server, along every run: two granted answers of one term name one candidate"),
         T("RP.election_safety", "cluster model (any size, fixed membership): two election wins in one term are by the same server, over all schedules, message loss/duplication/delay and crashes between the vote writes", "partial"),
         T("MP.vote_once_per_term", "one server: all grants of a term name one candidate, for every request sequence, failure plan and crash point"),
         T("OV.same_config_quorums_intersect", "two quorums (n/2+1) of one configuration intersect"),
@@ -79,7 +81,7 @@ PROPS["C01"] = {
     ],
     "engines": [handlers("C06"), universe("C06")],
     "assumptions": ["global theorem is about the cut-down cluster model Core/Model.lean (fixed membership, no pre-vote, no leader-known refusal); its vote and AppendEntries handlers were compared with the real ones in the design round; the full handlers are tied by H2", SV_NOTE],
-    "level_note": "partial: the global theorem covers fixed membership; membership changes rest on OV.adjacent_config_majorities_intersect plus the unproved invariant that configurations in use in one term are equal or adjacent. The candidate/leader side (tally, electSelf) is not yet in the stepped model.",
+    "level_note": "partial: the global theorem covers fixed membership; membership changes rest on OV.adjacent_config_majorities_intersect plus the unproved invariant that configurations in use in one term are equal or adjacent. The candidate's own tally (electSelf) is not in the stepped model: SV.election_safety_sv speaks about the grants the servers reported.",
 }
 
 PROPS["C02"] = {
